@@ -44,3 +44,4 @@ def check(rep, tier, replay=None):
     splines.check_s5_crop(rep, idx)
     splines.check_s6(rep, idx)
     splines.check_s7(rep, idx)
+    splines.check_s8(rep, idx)
